@@ -5,7 +5,8 @@ import UrcuVerif.Src.WqLocal
 # Generated source IR of `src/workqueue.c` ⊑ thread-local projection of L2 (`Wq`): application-thread side
 
 `urcu_workqueue_queue_work`, `wake_worker_thread` (+ `futex_wake_up`), `urcu_workqueue_pause_worker`,
-`urcu_workqueue_resume_worker`, `urcu_workqueue_wait_completion`.
+`urcu_workqueue_resume_worker`.  (`absEvT` / `WqL.tstep` already carry the labels of `urcu_workqueue_wait_completion`;
+its refinement theorem is not proved yet.)
 
 Addresses: the work queue is the object `L.W` (`&workqueue->flags` = `Loc.field L.W "flags"`, …,
 `&workqueue->cbs_tail.p` = `Loc.field (Loc.field L.W "cbs_tail") "p"`); a `struct urcu_work` object `w` is L2's work item
